@@ -68,6 +68,7 @@ fn main() {
         eprintln!("unknown property {id}");
         std::process::exit(2);
     };
+    engine::start_watchdog(180);
     if let Some(path) = artifact {
         std::process::exit(engine::fuzz_artifact(&p, &path, &verif));
     }
